@@ -287,7 +287,7 @@ Proof.
     all: destruct (tuple_geb (version cs) [3; 0]) eqn:E30; repeat wstep.
     all: destruct (tuple_geb (version cs) [3; 11]) eqn:E311; repeat wstep.
     all: destruct (tuple_geb (version cs) [2; 3]) eqn:E23; destruct (tuple_geb (version cs) [1; 3]) eqn:E13; destruct (tuple_geb (version cs) [1; 5]) eqn:E15;
-         destruct (tuple_geb (version cs) [2; 0]) eqn:E20; repeat wstep.
+         destruct (tuple_geb (version cs) [2; 1]) eqn:E20; repeat wstep.
     all: match goal with Hq : st_rel ?a ?b, H : bind (?rr (with_inp ?a ?lx)) _ = _ |- _ => pose proof (st_rel_with_inp _ _ lx Hq) as Hrc end; repeat rstep Hsim.
     all: try match goal with Hr : st_rel ?s ?m |- context [inp ?m] => replace (inp m) with (inp s) by (destruct Hr as (A & _); exact A) end.
     all: repeat wstep.
@@ -299,7 +299,7 @@ Proof.
     destruct (tuple_geb (version cs) [3; 0]) eqn:E30; repeat wstep.
     all: destruct (tuple_geb (version cs) [3; 11]) eqn:E311; repeat wstep.
     all: destruct (tuple_geb (version cs) [2; 3]) eqn:E23; destruct (tuple_geb (version cs) [1; 3]) eqn:E13; destruct (tuple_geb (version cs) [1; 5]) eqn:E15;
-         destruct (tuple_geb (version cs) [2; 0]) eqn:E20; repeat wstep.
+         destruct (tuple_geb (version cs) [2; 1]) eqn:E20; repeat wstep.
     all: match goal with Hq : st_rel ?a ?b, H : bind (?rr (with_inp ?a ?lx)) _ = _ |- _ => pose proof (st_rel_with_inp _ _ lx Hq) as Hrc end; repeat rstep Hsim.
     all: try match goal with Hr : st_rel ?s ?m |- context [inp ?m] => replace (inp m) with (inp s) by (destruct Hr as (A & _); exact A) end.
     all: repeat wstep.
